@@ -1,8 +1,176 @@
 package main
 
-// tryReplay turns a solver model into a Go test injected with -overlay and
-// runs it against the real code. Returns the replay file and whether the real
-// code exhibited the failure.
+import (
+	"encoding/json"
+	"fmt"
+	"os"
+	"os/exec"
+	"path/filepath"
+	"regexp"
+	"strings"
+	"time"
+)
+
+type driverRule struct {
+	Match    string            `json:"match"`    // regexp on the obligation name
+	Pkg      string            `json:"pkg"`      // package directory relative to the repo root
+	Driver   string            `json:"driver"`   // driver name understood by the injected test
+	Scenario map[string]string `json:"scenario"` // static scenario fields
+}
+
+type scenarioFile struct {
+	Driver     string            `json:"driver"`
+	Property   string            `json:"property"`
+	Obligation string            `json:"obligation"`
+	Pkg        string            `json:"pkg"`
+	Model      map[string]string `json:"model"`
+	Trace      []string          `json:"trace"`
+	Source     string            `json:"source"`
+	Solver     string            `json:"solver"`
+	Output     string            `json:"replay_output,omitempty"`
+	Confirmed  bool              `json:"confirmed"`
+}
+
+var replayDir = "/verif/replay"
+
+func loadDriverRules() []driverRule {
+	data, err := os.ReadFile(filepath.Join(replayDir, "drivers.json"))
+	if err != nil {
+		return nil
+	}
+	var rules []driverRule
+	json.Unmarshal(data, &rules)
+	return rules
+}
+
+// tryReplay turns a failed obligation into a scenario for the matching replay driver,
+// runs it against the real code (go test -overlay) and reports whether the real
+// code exhibited the violation.
 func tryReplay(ld *Loaded, prop, name string, ob *Obligation, work string) (string, bool) {
-	return "", false
+	if ob == nil || *flagNoReplay {
+		return "", false
+	}
+	var rule *driverRule
+	for _, r := range loadDriverRules() {
+		re, err := regexp.Compile(r.Match)
+		if err != nil {
+			continue
+		}
+		if re.MatchString(name) {
+			rr := r
+			rule = &rr
+			break
+		}
+	}
+	if rule == nil {
+		return "", false
+	}
+	sc := scenarioFile{Driver: rule.Driver, Property: prop, Obligation: name, Pkg: rule.Pkg, Model: map[string]string{}, Trace: ob.Trace, Source: ob.Pos, Solver: ob.Backend}
+	for _, kv := range parseModel(ob.Model) {
+		if strings.HasPrefix(kv[0], "H0.") || strings.HasPrefix(kv[0], "M0.") || strings.HasPrefix(kv[0], "alloc") || strings.HasPrefix(kv[0], "nm!") {
+			continue
+		}
+		// strip freshness counters: p.size!2 -> p.size
+		k := kv[0]
+		if i := strings.Index(k, "!"); i >= 0 {
+			j := i + 1
+			for j < len(k) && k[j] >= '0' && k[j] <= '9' {
+				j++
+			}
+			k = k[:i] + k[j:]
+		}
+		k = strings.TrimPrefix(k, "p.")
+		if _, dup := sc.Model[k]; !dup {
+			sc.Model[k] = kv[1]
+		}
+	}
+	for k, v := range rule.Scenario {
+		sc.Model[k] = v
+	}
+	os.MkdirAll(*flagReplayDir, 0o755)
+	path := filepath.Join(*flagReplayDir, fmt.Sprintf("%s_%s.json", prop, sanitize(name)))
+	write := func() {
+		data, _ := json.MarshalIndent(sc, "", " ")
+		os.WriteFile(path, data, 0o644)
+	}
+	write()
+	out, confirmed := runReplay(*flagRepo, path, rule.Pkg)
+	sc.Output = out
+	sc.Confirmed = confirmed
+	write()
+	return path, confirmed
+}
+
+// runReplay executes the scenario file against the repository at repo.
+func runReplay(repo, scenarioPath, pkg string) (string, bool) {
+	tmp, err := os.MkdirTemp("", "govc-replay")
+	if err != nil {
+		return err.Error(), false
+	}
+	defer os.RemoveAll(tmp)
+	pkgDir := filepath.Join(repo, pkg)
+	repl := map[string]string{}
+	var files [][2]string
+	switch pkg {
+	case ".", "":
+		files = [][2]string{{"zz_verif_replay_test.go", "wire_replay_test.go.txt"}, {"zz_verif_strict_test.go", "strict_parser_test.go.txt"}}
+	case "pkg/buffer":
+		files = [][2]string{{"zz_verif_replay_test.go", "buffer_replay_test.go.txt"}}
+	default:
+		return "no replay files for package " + pkg, false
+	}
+	for _, f := range files {
+		repl[filepath.Join(pkgDir, f[0])] = filepath.Join(replayDir, f[1])
+	}
+	ov, _ := json.Marshal(map[string]interface{}{"Replace": repl})
+	ovPath := filepath.Join(tmp, "overlay.json")
+	os.WriteFile(ovPath, ov, 0o644)
+	cmd := exec.Command("go", "test", "-overlay", ovPath, "-vet=off", "-count=1", "-timeout", "60s", "-run", "^TestVerifReplay$", "-v", "./"+pkg)
+	cmd.Dir = repo
+	cmd.Env = append(os.Environ(), "VERIF_SCENARIO="+scenarioPath, "GOFLAGS=-mod=mod", "GOPROXY=off", "GOSUMDB=off", "GOTOOLCHAIN=local")
+	done := make(chan struct{})
+	var outB []byte
+	go func() {
+		outB, _ = cmd.CombinedOutput()
+		close(done)
+	}()
+	select {
+	case <-done:
+	case <-time.After(120 * time.Second):
+		if cmd.Process != nil {
+			cmd.Process.Kill()
+		}
+		return "replay timed out", false
+	}
+	out := string(outB)
+	if len(out) > 20000 {
+		out = out[:20000]
+	}
+	return out, strings.Contains(out, "VERIF-CONFIRMED")
+}
+
+// replayMain implements `govc -replay <file>`: re-run a stored scenario.
+func replayMain(path string) int {
+	data, err := os.ReadFile(path)
+	if err != nil {
+		fmt.Println("cannot read replay file:", err)
+		return 2
+	}
+	if strings.HasSuffix(path, ".txt") {
+		fmt.Print(string(data))
+		fmt.Println("(no executable scenario: this violation was reported as no-failing-input-found)")
+		return 1
+	}
+	var sc scenarioFile
+	if err := json.Unmarshal(data, &sc); err != nil {
+		fmt.Println("bad replay file:", err)
+		return 2
+	}
+	out, confirmed := runReplay(*flagRepo, path, sc.Pkg)
+	fmt.Print(out)
+	if confirmed {
+		fmt.Printf("VIOLATION property=%s replay=%s\n", sc.Property, path)
+		return 1
+	}
+	return 0
 }
